@@ -5,8 +5,8 @@ from loadlib import *
 
 ID = "C02"
 GEN = ["Candidates"]
-THEOREMS = ["C02_ok_restores_locks", "C02_loop_sound", "C02_acyclic_no_loop", "C02_acyclic_terminates",
-            "C02_refuted_loadcss", "C02_termination_refuted", "C02_refuted_spelling"]
+THEOREMS = ["C02_ok_restores_locks", "C02_loop_sound", "C02_acyclic_no_loop", "C02_ok_acyclic", "C02_terminates",
+            "C02_loop_complete", "C02_every_world_terminates"]
 COQ_HEADER = ("From Coq Require Import String List ZArith NArith.\nFrom RV Require Import Gen.Candidates Model.Load Model.LoadRun Run.C02.\n"
               "Import ListNotations.\nLocal Open Scope string_scope.")
 RUN_EXPR = "Run.C02.run"
@@ -18,9 +18,9 @@ RULE = ("directed multigraphs over 2-4 stylesheets (root t plus a, b, c), every 
 EXHAUSTIVE = {"quick": False, "thorough": True}
 TRUSTED = ["Spec/LoadRef.v: reference semantics (canonical files, stack-based loop detection) written from the property text",
            "the operating system resolves `.`/`..` as Model/LoadRun.v fs_isfile does (checked against the real file system on every run)",
-           "a run stopped by the operating system (stack overflow, or PATH_MAX after ~2000 nested `./` prefixes on a real file system: "
-           "an error whose message carries a path of more than 2500 characters) is counted as non-termination (class 9) and "
-           "corresponds to the model running out of fuel"]
+           "urls are resolved lexically (`x/../a` = `a` even when x does not exist), as rsass does since d80c9be and as the "
+           "reference semantics states; a run stopped by the operating system (stack overflow, PATH_MAX) would be counted as "
+           "non-termination (class 9): none occurs any more"]
 ASSUMPTIONS = ["loads are top-level directives with literal urls; every file of a world parses",
                "model fuel 60 nested loads: terminating runs of the generated worlds nest far less (a disagreement would be reported)"]
 TIMEOUT_PER_CASE = 40.0
@@ -89,9 +89,9 @@ def gen_cases(ctx, tier):
         (loud if may_diverge(n, edges) else quiet).append(c)
 
     # corpus / known-finding witnesses
-    add(1, [(0, 0, "import", "./{}")], "norm")                       # F5
-    add(1, [(0, 0, "import", "./{}")], "fs")                         # F5 on the real file system
-    add(2, [(0, 1, "loadcss", "{}"), (1, 1, "loadcss", "{}")], "norm")   # F6
+    add(1, [(0, 0, "import", "./{}")], "norm")                       # former F5 (fixed by d80c9be)
+    add(1, [(0, 0, "import", "./{}")], "fs")                         # former F5 on the real file system
+    add(2, [(0, 1, "loadcss", "{}"), (1, 1, "loadcss", "{}")], "norm")   # former F6 (fixed by 2454c18)
     add(2, [(0, 1, "use", "{}"), (1, 0, "use", "d/../{}")], "norm")
     add(1, [(0, 0, "import", "{}")], "mem")
     add(1, [(0, 0, "loadcss", "{}")], "mem")
@@ -202,12 +202,13 @@ def shrink(c):
                 yield dict(c, world=w)
 
 
-LEVEL_TEXT = ("proof: invariant over Context.loading (every locked key is the name of a file on the current load stack; a successful "
-              "load restores the lock set) gives soundness of loop errors for every loader and every world: a loop error exhibits a "
-              "real cycle through the stack; on ranked (acyclic) load graphs the model terminates within rank+1 nested loads and "
-              "never reports a loop; the full statement is refuted with two witnesses "
-              "(load-css self loop and `./` spelling, both for every fuel); tied to the code by exact loader-call-log "
-              "and output correspondence over generated graphs")
-LEVEL_NOTE = ("trusted: Coq kernel+vm_compute, the harness (normalising in-memory loader), Spec/LoadRef.v; F5 and F6 are recorded as "
-              "two narrow known-finding classes (cycle through a spelled url; cycle made of load-css loads)")
-TECHNIQUE = "Coq proof (invariant by induction on fuel and bodies) + differential correspondence against a reference interpreter"
+LEVEL_TEXT = ("proof, full strength since the fixes d80c9be and 2454c18: for every loader and every world - soundness (a loop "
+              "error exhibits a real cycle reachable from the root: every locked key is the name of a file on the load stack), "
+              "completeness (css is returned only if nothing reachable from the root lies on a cycle: when a file first finishes, "
+              "every file it loads has finished before; hence a reachable cycle always ends in an error) and termination (a loader "
+              "that knows finitely many names needs at most |names|+1 nested loads: no normalized name is locked twice); instance: "
+              "every in-memory world terminates; tied to the code by exact loader-call-log and output correspondence over "
+              "generated graphs, all two-file graphs in thorough")
+LEVEL_NOTE = ("trusted: Coq kernel+vm_compute, the harness (normalising in-memory loader), Spec/LoadRef.v; F5 and F6 are fixed "
+              "in /repo (d80c9be, 2454c18): no known-finding class is left")
+TECHNIQUE = "Coq proof (invariants by induction on fuel and bodies; finishing-order argument) + differential correspondence against a reference interpreter"
